@@ -99,8 +99,21 @@ def _mutable_state():
     return out
 
 
+_BASELINE_IDS = None
+
+
+def _owners():
+    for mname, mod in list(sys.modules.items()):
+        if not (mname == "amr_kitchen" or mname.startswith("amr_kitchen.")) or mod is None:
+            continue
+        yield mod
+        for v in list(vars(mod).values()):
+            if isinstance(v, type) and getattr(v, "__module__", "") == mname:
+                yield v
+
+
 def snapshot_process_state():
-    global _BASELINE_STATE
+    global _BASELINE_STATE, _BASELINE_IDS
     import copy
     _BASELINE_STATE = {}
     for key, v in _mutable_state().items():
@@ -108,6 +121,11 @@ def snapshot_process_state():
             _BASELINE_STATE[key] = copy.deepcopy(v)
         except Exception:
             pass
+    # identity of EVERY module-level and class-level attribute (a pool, a cache object, a rebound
+    # global kept by one case must not be met by the next)
+    _BASELINE_IDS = {}
+    for ow in _owners():
+        _BASELINE_IDS[ow] = {k: v for k, v in vars(ow).items() if not k.startswith("__")}
 
 
 def restore_process_state():
@@ -118,6 +136,31 @@ def restore_process_state():
     if _BASELINE_STATE is None:
         return 0
     n = 0
+    for ow, base in (_BASELINE_IDS or {}).items():
+        cur = vars(ow)
+        for k in [k for k in cur if not k.startswith("__") and k not in base]:
+            try:
+                delattr(ow, k)
+                n += 1
+            except Exception:
+                pass
+        for k, v in base.items():
+            if cur.get(k, None) is not v:
+                try:
+                    setattr(ow, k, v)
+                    n += 1
+                except Exception:
+                    pass
+    try:
+        import functools
+        import gc
+        # function-level caches (functools.lru_cache) of the package
+        for ow in (_BASELINE_IDS or {}):
+            for v in list(vars(ow).values()):
+                if hasattr(v, "cache_clear") and callable(getattr(v, "cache_clear", None)):
+                    v.cache_clear()
+    except Exception:
+        pass
     for (ow, k), base in _BASELINE_STATE.items():
         cur = vars(ow).get(k)
         try:
